@@ -6,6 +6,8 @@ import DafRel.Props.C14
 #print axioms DafRel.Props.C14.history_trees_wellformed
 #print axioms DafRel.Props.C14.join_common_columns_resolved
 #print axioms DafRel.Props.C14.transfer_never_to_same_engine
+#print axioms DafRel.Props.C14.transfer_with_payload_never_to_same_engine
+#print axioms DafRel.Props.C14.transfer_with_payload_to_own_engine_raises
 #print axioms DafRel.Props.C14.noop_calls_return_self
 #print axioms DafRel.Props.C14.sql_apply_wellformed
 #print axioms DafRel.Props.C14.sql_conform_wellformed
